@@ -29,6 +29,8 @@ class Interp2(Interp):
                    "int": z3.Or(self.is_c("VInt", t), self.is_c("VBool", t)), "float": self.is_c("VFloat", t),
                    "dict": Fz, "list": Fz, "tuple": Fz, "Tag": Fz}
             return tbl.get(cls)
+        if isinstance(v, SAdt) and v.sort == "AddArg":
+            return {"HTML": self.is_c("AHtml", v.t), "str": self.is_c("APlain", v.t)}.get(cls, Fz)
         if isinstance(v, SAdt) and v.sort == "OptAV":
             t = v.t
             inner = self.acc("SomeAV", "v", t)
@@ -88,6 +90,8 @@ class Interp2(Interp):
             if i == 3:
                 return SStr(self.w.funcs["strOfFloat"](self.acc("VFloat", "fid", v.t)))
             raise Unsupported("str() of None/bool/other attribute argument")
+        if isinstance(v, SAdt) and v.sort == "AddArg":
+            return SStr(z3.If(self.is_c("APlain", v.t), self.acc("APlain", "s", v.t), z3.If(self.is_c("AHtml", v.t), self.acc("AHtml", "s", v.t), self.acc("AObj", "s", v.t))))
         if isinstance(v, (SOpaque, SClass)):
             return SStr(self.fresh("Str", "opaque_str"))      # e.g. type(x) inside an error message
         h = getattr(self, "str_hook3", None)
@@ -120,6 +124,13 @@ class Interp2(Interp):
                     return SAdt("AttrVal", z3.If(self.is_c("VStr", v.t), self.C("Plain", self.acc("VStr", "s", v.t)), self.C("RawV", self.acc("VHtml", "s", v.t))))
             if isinstance(v, SAdt) and v.sort == "OptAV" and self.implied(self.is_c("SomeAV", v.t)):
                 return SAdt("AttrVal", self.acc("SomeAV", "v", v.t))
+        if sort == "AddArg":
+            if isinstance(v, SStr):
+                return SAdt("AddArg", self.C("APlain", v.t))
+            if isinstance(v, SAdt) and v.sort == "AttrVal":
+                return SAdt("AddArg", z3.If(self.is_c("Plain", v.t), self.C("APlain", self.acc("Plain", "s", v.t)), self.C("AHtml", self.acc("RawV", "s", v.t))))
+            if isinstance(v, SInt):
+                return SAdt("AddArg", self.C("AObj", self.w.funcs["strOfInt"](v.t)))
         if sort == "AttrArg":
             if isinstance(v, SStr):
                 return SAdt("AttrArg", self.C("VStr", v.t))
@@ -322,6 +333,8 @@ class Interp2(Interp):
                 return obj
         if isinstance(obj, SAdt) and obj.sort == "ArgDict" and meth == "items" and not pos:
             return obj
+        if isinstance(obj, SAdt) and obj.sort == "AddArg" and meth in ("as_string", "__str__") and self.implied(self.is_c("AHtml", obj.t)):
+            return self.call_q("htmltools._core.HTML." + meth, [SAdt("AttrVal", self.C("RawV", self.acc("AHtml", "s", obj.t)))], node)
         if isinstance(obj, SAdt) and obj.sort == "OptAV" and meth in ("split", "endswith"):
             # value known to be truthy str|HTML here
             if self.implied(self.is_c("SomeAV", obj.t)):
